@@ -49,10 +49,19 @@ def bit_range(b, e, signed=False):
     def getter(s):
         return s[b:e]
 
-    def setter(s, v):
+    def raw_setter(s, v):
         s[b:e] = v
 
-    return _p2(getter, setter, e - b, signed)
+    def setter(s, v):
+        if signed and v >= (1 << (e - b - 1)):
+            raise ValueError(
+                f"value {v} cannot be fit into {e - b} bits (signed)"
+            )
+        s[b:e] = v
+
+    field = _p2(getter, setter, e - b, signed)
+    field._raw_setter = raw_setter
+    return field
 
 
 def bit(b):
@@ -70,14 +79,22 @@ def bit_concat(*partials):
             v = v | (at.__get__(s) & at._mask)
         return v
 
-    def setter(s, v):
+    def raw_setter(s, v):
         for at in reversed(partials):
-            at.__set__(s, v & at._mask)
+            at._raw_setter(s, v & at._mask)
             v = v >> at._bitsize
+
+    def setter(s, v):
+        upper = (1 << (bitsize - 1)) if signed else (1 << bitsize)
+        if v >= upper or v < -(1 << (bitsize - 1)):
+            raise ValueError(f"value {v} cannot be fit into {bitsize} bits")
+        raw_setter(s, v)
 
     bitsize = sum(at._bitsize for at in partials)
     signed = partials[0]._signed
-    return _p2(getter, setter, bitsize, signed)
+    field = _p2(getter, setter, bitsize, signed)
+    field._raw_setter = raw_setter
+    return field
 
 
 class TokenMeta(type):
@@ -148,7 +165,7 @@ class Token(metaclass=TokenMeta):
             limit = 1 << bits
             # TODO: is this an issue?
             # assert value >= 0, value
-            if value >= limit:
+            if value >= limit or value < -(limit >> 1):
                 raise ValueError(
                     f"value {value} cannot be fit into {bits} bits"
                 )
